@@ -58,6 +58,8 @@ impl<const BITS: usize, const LIMBS: usize> Uint<BITS, LIMBS> {
         // We handled edge cases above, so the result should be normal and fit `Self`.
         assert!(result.is_normal());
         let mut result = result.try_into().unwrap();
+        #[cfg(feature = "recmo_uint_verif")]
+        crate::verif_hooks::tap(Self::saturating_to::<u64>(&result));
 
         // Adjust result to get the exact value. At most one of these should happen, but
         // we loop regardless.
